@@ -7,6 +7,70 @@ package go_clipper2
 //
 //	0: R(1,1)  1: R(2,0)  2: R(2,1)  3: R(1,2)  4: R(3,0)  5: R(1,0)
 func vFamily(fam int64) (subj, clip Paths64) {
+	if fam == 14 {
+		// like family 8 with both clip rectangles strictly inside the subject
+		// (in y as well); the y-relation between the two clips stays free
+		s, c, d := vRectPos("s", vB29), vRectPos("c", vB29), vRectPos("d", vB29)
+		vAssume(vAnd(vAnd(s[0].X < c[0].X, c[1].X < d[0].X), d[1].X < s[1].X))
+		vAssume(vAnd(vAnd(s[0].Y < c[0].Y, c[2].Y < s[2].Y), vAnd(s[0].Y < d[0].Y, d[2].Y < s[2].Y)))
+		return Paths64{s}, Paths64{c, d}
+	}
+	if fam == 8 {
+		// R(1,2) restricted: both clip rectangles lie within the subject's
+		// x-range, the first strictly left of the second; all y-relations free;
+		// positive orientation.
+		s, c, d := vRectPos("s", vB29), vRectPos("c", vB29), vRectPos("d", vB29)
+		vAssume(vAnd(vAnd(s[0].X < c[0].X, c[1].X < d[0].X), d[1].X < s[1].X))
+		return Paths64{s}, Paths64{c, d}
+	}
+	if fam == 9 {
+		// R(2,1) restricted the same way: two subject rectangles inside the clip's x-range
+		s, t, c := vRectPos("s", vB29), vRectPos("t", vB29), vRectPos("c", vB29)
+		vAssume(vAnd(vAnd(c[0].X < s[0].X, s[1].X < t[0].X), t[1].X < c[1].X))
+		return Paths64{s, t}, Paths64{c}
+	}
+	if fam == 10 || fam == 11 {
+		// abutting: A and B share the vertical line x = xm (A to its left, B to
+		// its right) and C's left side lies on the same line; every other side
+		// and all y-relations are free. fam 10: A, B subject, C clip; fam 11: all subject.
+		xm := vInt("xm", -vB29, vB29)
+		ax0, bx1, cx1 := vInt("ax0", -vB29, vB29), vInt("bx1", -vB29, vB29), vInt("cx1", -vB29, vB29)
+		vAssume(vAnd(ax0 < xm, vAnd(xm < bx1, xm < cx1)))
+		ys := func(n string) (int64, int64) {
+			y0, y1 := vInt(n+"y0", -vB29, vB29), vInt(n+"y1", -vB29, vB29)
+			vAssume(y0 < y1)
+			return y0, y1
+		}
+		ay0, ay1 := ys("a")
+		by0, by1 := ys("b")
+		cy0, cy1 := ys("c")
+		a := Path64{{ax0, ay0}, {xm, ay0}, {xm, ay1}, {ax0, ay1}}
+		b := Path64{{xm, by0}, {bx1, by0}, {bx1, by1}, {xm, by1}}
+		c := Path64{{xm, cy0}, {cx1, cy0}, {cx1, cy1}, {xm, cy1}}
+		if fam == 10 {
+			return Paths64{a, b}, Paths64{c}
+		}
+		return Paths64{a, b, c}, nil
+	}
+	if fam == 12 {
+		// R(1,2) with the two clip rectangles overlapping in x inside the subject's x-range
+		s, c, d := vRectPos("s", vB29), vRectPos("c", vB29), vRectPos("d", vB29)
+		vAssume(vAnd(vAnd(s[0].X < c[0].X, c[0].X < d[0].X), vAnd(d[0].X < c[1].X, vAnd(c[1].X < d[1].X, d[1].X < s[1].X))))
+		return Paths64{s}, Paths64{c, d}
+	}
+	if fam == 13 {
+		// a subject rectangle, a clip strip spanning its full height (same y
+		// variables) and a second clip rectangle strictly inside the right piece
+		x0, x1, x2, x3 := vInt("x0", -vB29, vB29), vInt("x1", -vB29, vB29), vInt("x2", -vB29, vB29), vInt("x3", -vB29, vB29)
+		x4, x5 := vInt("x4", -vB29, vB29), vInt("x5", -vB29, vB29)
+		y0, y3, y4, y5 := vInt("y0", -vB29, vB29), vInt("y3", -vB29, vB29), vInt("y4", -vB29, vB29), vInt("y5", -vB29, vB29)
+		vAssume(vAnd(vAnd(x0 < x1, x1 < x2), vAnd(x2 < x4, vAnd(x4 < x5, x5 < x3))))
+		vAssume(vAnd(y0 < y4, vAnd(y4 < y5, y5 < y3)))
+		s := Path64{{x0, y0}, {x3, y0}, {x3, y3}, {x0, y3}}
+		strip := Path64{{x1, y0}, {x2, y0}, {x2, y3}, {x1, y3}}
+		hole := Path64{{x4, y4}, {x5, y4}, {x5, y5}, {x4, y5}}
+		return Paths64{s}, Paths64{strip, hole}
+	}
 	ks, kc := 1, 1
 	switch fam {
 	case 1:
@@ -56,4 +120,13 @@ func vCellInside(id string, g vGrid, paths Paths64, fr FillRule) func(i, j int) 
 		vAssert(id+".rectilinear", ok)
 		return vFillC(fr, w)
 	}
+}
+
+// vRectPos: like vRect but always positively oriented.
+func vRectPos(name string, bound int64) Path64 {
+	x0, x1 := vInt(name+"x0", -bound, bound), vInt(name+"x1", -bound, bound)
+	y0, y1 := vInt(name+"y0", -bound, bound), vInt(name+"y1", -bound, bound)
+	vAssume(x0 < x1)
+	vAssume(y0 < y1)
+	return Path64{{x0, y0}, {x1, y0}, {x1, y1}, {x0, y1}}
 }
